@@ -496,6 +496,21 @@ def encodeDoc (root : SerRoot) (s : Sch) (v : Val) : List Ev :=
     | .struct [.one (.str b)] => .start tag (nsAttr ns) :: textEv (escapeText b) ++ [.stop tag]
     | _ => [.start tag (nsAttr ns), .stop tag]
 
+/-- the callback of the hand-written `impl Deserialize for GetBucketLocationOutput` (xml/mod.rs):
+`if location_constraint.is_some() { DuplicateField }`, `let val = d.content()?`,
+`if !val.as_str().is_empty() { location_constraint = Some(val) }` -/
+def locationItem (tag : Bytes) (name : Bytes) (evs : List Ev) (acc : FVal) : R FVal :=
+  if name = tag then
+    if acc.isAbsent then
+      match textOf evs with
+      | .error e => .error e
+      | .ok (raw, r) =>
+        match decodeStr raw with
+        | .error e => .error e
+        | .ok b => .ok (if b = [] then .absent else .one (.str b), r)
+    else .error .duplicateField
+  else .error .unexpectedTagName
+
 /-- `T::deserialize(&mut d)` followed by `d.expect_eof()` -/
 def decodeDoc (X : Ext) (root : DeRoot) (s : Sch) (evs : List Ev) : Except DeErr Val :=
   match root with
@@ -530,17 +545,7 @@ def decodeDoc (X : Ext) (root : DeRoot) (s : Sch) (evs : List Ev) : Except DeErr
     -- hand-written: top-level `for_each_element`; `if location_constraint.is_some() { DuplicateField }`, then
     -- `if !val.is_empty() { location_constraint = Some(val) }` — an empty constraint leaves the variable `None`,
     -- so it may be followed by another `LocationConstraint` element
-    match forEach (fun name evs (acc : FVal) =>
-            if name = tag then
-              if acc.isAbsent then
-                match textOf evs with
-                | .error e => .error e
-                | .ok (raw, r) =>
-                  match decodeStr raw with
-                  | .error e => .error e
-                  | .ok b => .ok (if b = [] then .absent else .one (.str b), r)
-              else .error .duplicateField
-            else .error .unexpectedTagName) (evs.length + 1) evs .absent with
+    match forEach (locationItem tag) (evs.length + 1) evs .absent with
     | .error e => .error e
     | .ok (acc, r) =>
       match expectEof r with
